@@ -229,6 +229,7 @@ inductive Clause where
   | lost (n q : Nat)
   | rejectedF2_19 | rejected19 | rejectedF2_02 | rejected02
   | dtWrite | badFrame | writtenDiffers
+  | cwCrash (c : Crash) | cwGarbled (n : Nat) | cwLost (m : Msg)
   | dtNdReader (c : Crash) | ndNotValueByValue
   | writePanic02 | flushedEarly | notOnItsOwn | arrayNotExact | withheld (hasNotif : Bool) | lastOnItsOwn
   -- frames through the other readers
@@ -818,6 +819,38 @@ def Verd.selectWrite (v : Verd) (pid : Pid) : Option Clause :=
   match pid with
   | .c02 => v.v02
   | _ => v.v19
+
+/-! ## concurrent writers on one connection -/
+
+/-- `io.cw`: the lines of the stream after several goroutines called `Write` at the same time (in any
+order; `none`: a line that is no JSON value on its own) -/
+inductive CwObs where
+  | crash (c : Crash)
+  | lines (l : List (Option JVal))
+  | other
+deriving Repr, Inhabited
+
+/-- messages that are never held back or merged: calls and notifications on a connection without
+outgoing batching (responses may be parked in the reply to an incoming batch) -/
+def onItsOwn (outCap : Nat) : Msg → Bool
+  | .request .. => outCap == 0
+  | _ => false
+
+def lineIs (m : Msg) : Option JVal → Bool
+  | some v => (wireDiff v (encodeMsg m)).isNone
+  | none => false
+
+/-- every line of the stream is a JSON value of its own — the frames of the writers do not run into each
+other — and every message that goes out on its own is one of the lines, as given -/
+def cwMonitor (outCap : Nat) (msgs : List Msg) (o : CwObs) : Option Clause :=
+  match o with
+  | .crash c => some (.cwCrash c)
+  | .other => some .badObservation
+  | .lines l =>
+    if l.any Option.isNone then some (.cwGarbled (l.filter Option.isNone).length)
+    else match msgs.find? (fun m => onItsOwn outCap m && !l.any (lineIs m)) with
+      | some m => some (.cwLost m)
+      | none => none
 
 /-! ## the byte stream of an io connection through its reader goroutine -/
 
